@@ -11,6 +11,9 @@ import "github.com/glebziz/fs_db/internal/verifhook"
 
 func (r *Repo) Store(_ context.Context, tx model.Transaction) error {
 	verifhook.At("txrepo.store.enter")
+	r.m.Lock()
+	defer r.m.Unlock()
+
 	_, ok := r.storage.Load(tx.Id)
 	if ok {
 		return fs_db.ErrTxAlreadyExists
